@@ -335,8 +335,8 @@ impl Scenario for Adv {
 pub fn scenarios(thorough: bool) -> Vec<(Adv, usize)> {
     if thorough {
         vec![
-            (Adv { adversaries: 1, deviations: 4, gated: false }, 12),
-            (Adv { adversaries: 2, deviations: 3, gated: false }, 9),
+            (Adv { adversaries: 1, deviations: 5, gated: false }, 14),
+            (Adv { adversaries: 2, deviations: 3, gated: false }, 10),
             (Adv { adversaries: 1, deviations: 2, gated: true }, 10),
             (Adv { adversaries: 2, deviations: 1, gated: true }, 9),
         ]
